@@ -115,18 +115,19 @@ func (x *in) key(extra map[string]interface{}) map[string]interface{} {
 	case "sine":
 		m := float64(x.MeanFreq) / float64(x.MeanPer)
 		a := float64(x.AmpFreq) / float64(x.AmpPer)
-		r := a / m
-		if math.IsNaN(r) || math.IsInf(r, 0) {
+		r := math.Abs(a) / m
+		if math.IsNaN(r) || math.IsInf(r, 0) || m <= 0 {
 			r = -1
 		}
-		k["amp_over_mean"] = r
+		k["amp_over_mean"] = r // magnitude; the sign is in amp_negative
+		k["amp_negative"] = a < 0
 		hpp := m * float64(x.Period)
 		if math.IsNaN(hpp) || math.IsInf(hpp, 0) {
 			hpp = -1
 		}
 		k["hits_per_period"] = hpp
 		k["trough_hits_per_period"] = hpp * (1 - r)
-		pk := m + a
+		pk := m + math.Abs(a)
 		if math.IsNaN(pk) || math.IsInf(pk, 0) {
 			pk = -1
 		}
